@@ -2,13 +2,28 @@
    aggregate of up to 100 rows of doubles has numerators of thousands of bits. *)
 From Coq Require Import List ZArith QArith Qcanon Extraction ExtrOcamlBasic ExtrOcamlZBigInt.
 From LN Require C01Q_Defs.
-From LN Require Import C03_Defs C03_Loops_Defs.
+From LN Require Import C03_Defs C03_Loops_Defs C03_Whole_Defs.
 From LNGen Require Import Src_c03.
 Extraction Language OCaml.
 (* the n-D ellipsoid step runs over the canonical rationals Qc (Qred after every operation): Z.ggcd is mapped to
    Zarith's gcd with the specification of Z.ggcd, exactly as in Extract_C01Q.v (trusted base) *)
 Extract Constant Z.ggcd => "(fun a b -> let g = Big_int_Z.gcd_big_int a b in
   if Big_int_Z.sign_big_int g = 0 then (g, (g, g)) else (g, (Big_int_Z.div_big_int a g, Big_int_Z.div_big_int b g)))".
+(* stage WHOLE replays complete runs: Coq's Qplus / Qmult do not reduce their results, and the aggregate of aggregates doubles the size
+   of the denominators at every aggregation.  The two operations are extracted to versions that return the SAME rational in lowest
+   terms (every decision of the model goes through Qle_bool / Qeq_bool / Qcompare, which respect Qeq) -- trusted base *)
+Extract Constant Qplus => "(fun x y ->
+  let n = Big_int_Z.add_big_int (Big_int_Z.mult_big_int x.qnum y.qden) (Big_int_Z.mult_big_int y.qnum x.qden) in
+  let d = Big_int_Z.mult_big_int x.qden y.qden in
+  let g = Big_int_Z.gcd_big_int n d in
+  if Big_int_Z.sign_big_int g = 0 || Big_int_Z.eq_big_int g Big_int_Z.unit_big_int then { qnum = n; qden = d }
+  else { qnum = Big_int_Z.div_big_int n g; qden = Big_int_Z.div_big_int d g })".
+Extract Constant Qmult => "(fun x y ->
+  let n = Big_int_Z.mult_big_int x.qnum y.qnum in
+  let d = Big_int_Z.mult_big_int x.qden y.qden in
+  let g = Big_int_Z.gcd_big_int n d in
+  if Big_int_Z.sign_big_int g = 0 || Big_int_Z.eq_big_int g Big_int_Z.unit_big_int then { qnum = n; qden = d }
+  else { qnum = Big_int_Z.div_big_int n g; qden = Big_int_Z.div_big_int d g })".
 Extraction "extracted/c03_model.ml" dot vsub vadd vscale norm2 qsum smeared_e smeared_s del_inactive pick aggregate
   del_largest recenter null_cut append init solve2 step run econv sconv cs_converged proximal delta
   done_status rqb_done fpba_done ell1_gHg ell1_next ell1_stop0 ell1_conv ell1_loop removed_count nth_post
@@ -25,7 +40,10 @@ Extraction "extracted/c03_model.ml" dot vsub vadd vscale norm2 qsum smeared_e sm
   src_c03_cs_budget src_c03_cs_failed src_c03_cs_descent src_c03_cs_null src_c03_cs_dstep src_c03_cs_cstep src_c03_cs_interp
   src_c03_cs_descent_moves src_c03_cs_else_moves src_c03_cs_st_failed src_c03_cs_st_converged src_c03_cs_st_null
   src_c03_cs_st_descent src_c03_cs_st_cutting src_c03_cs_st_init cs_reset tape_rqb_prefix src_c03_rqb_budget src_c03_rqb_is_descent src_c03_rqb_is_cutting src_c03_rqb_is_null
-  src_c03_fpba_budget src_c03_fpba_is_descent src_c03_fpba_is_cutting src_c03_fpba_is_null.
+  src_c03_fpba_budget src_c03_fpba_is_descent src_c03_fpba_is_cutting src_c03_fpba_is_null
+  (* stage WHOLE (C03_Whole_Defs.v): the composed model of a whole RQB / FPBA run on the recorded oracle answers *)
+  w_solve w_ask w_append w_serious w_null w_prox1 w_prox2 w_momentum w_init w_start whole_rqb whole_fpba replay_rqb replay_fpba
+  src_c03_moveto_serious src_c03_append_serious.
 (* the n-D deep-cut step goes to a module of its own: its vectors / matrices are those of C01Q_Defs, whose names (dot,
    vsub, ...) would otherwise be renamed against the ones above *)
 Extraction "extracted/c03e_model.ml" en_gHg en_alpha en_x en_H en_delta en_k en_P en_best en_step en_run en_H0 en_P0
